@@ -46,6 +46,7 @@ type Opts struct {
 	SingleChild      bool // allow inner non-root nodes with one child
 	Hostile          bool // C01 style labels
 	NamePrefix       string
+	Wide             bool // one case in eight (instead of one in thirty) has a wide multifurcation (9..75 children)
 	NoOver64         bool // never draw the 65..130-tip class (checks whose cost is quadratic per tip and that do not touch bitsets)
 }
 
@@ -242,7 +243,19 @@ func Tree(t *rapid.T, o Opts) *ref.Node {
 	if maxDeg == 0 {
 		maxDeg = 6
 	}
-	if maxDeg > 2 && rapid.IntRange(0, 3).Draw(t, "binary") == 0 {
+	// one case in sixty has one wide multifurcation (9..75 children, tips and inner nodes mixed,
+	// possibly the root) in every tier, for every check that allows large trees and multifurcations
+	wideK, wideAt := 0, 0
+	if o.BigTips >= 24 && maxDeg > 2 && wideDraw(rapid.IntRange(0, 59).Draw(t, "wide"), o.Wide) {
+		hi := 80
+		if o.NoOver64 {
+			hi = 60
+		}
+		n = rapid.IntRange(12, hi).Draw(t, "ntipswide")
+		wideK = rapid.IntRange(9, n-3).Draw(t, "widek")
+		wideAt = rapid.IntRange(0, 6).Draw(t, "wideat")
+	}
+	if maxDeg > 2 && wideK == 0 && rapid.IntRange(0, 3).Draw(t, "binary") == 0 {
 		maxDeg = 2
 	}
 	rootDeg := 0
@@ -264,6 +277,9 @@ func Tree(t *rapid.T, o Opts) *ref.Node {
 			}
 		}
 	}
+	if wideK > 0 && rootDeg > 2 && rapid.IntRange(0, 3).Draw(t, "wideroot") == 0 {
+		rootDeg, wideK = wideK, 0
+	}
 	if rootDeg > n {
 		rootDeg = n
 	}
@@ -280,14 +296,21 @@ func Tree(t *rapid.T, o Opts) *ref.Node {
 	for i := range nodes {
 		nodes[i] = &ref.Node{Name: names[i]}
 	}
-	for len(nodes) > rootDeg {
-		kmax := len(nodes) - rootDeg + 1
+	for iter := 0; len(nodes) > rootDeg; iter++ {
+		avail := len(nodes) - rootDeg + 1
+		kmax := avail
 		if kmax > maxDeg {
 			kmax = maxDeg
 		}
 		k := 2
 		if kmax > 2 {
 			k = rapid.IntRange(2, kmax).Draw(t, "k")
+		}
+		if wideK > 0 && (iter == wideAt || avail <= wideK) {
+			k, wideK = wideK, 0
+			if k > avail {
+				k = avail
+			}
 		}
 		p := &ref.Node{}
 		for j := 0; j < k; j++ {
@@ -558,4 +581,10 @@ func Subset(t *rapid.T, names []string, min, max int, label string) []string {
 
 func Describe(root *ref.Node) string {
 	return fmt.Sprintf("%s", ref.Write(root))
+}
+
+// wideDraw selects interior values: rapid draws the bounds of a range far more often than
+// 1/size, so "== 0" would select one case in ten.
+func wideDraw(v int, often bool) bool {
+	return v == 29 || v == 37 || v == 11 || v == 47 || (often && v%8 == 3)
 }
